@@ -124,6 +124,17 @@ def run(ctx):
         sc = gen_arena(rng, faults=(i % 2 == 0))
         for c in cfgs:
             cases.append(dict(exe=ex_arena[c], script=sc, replay_args=['arena'], tag=('arena', sc.split('\n')[0], c)))
+    # block sources with a fixed number of equal blocks (static storage, reserved virtual memory) run dry, blocks returned and
+    # taken again: a block that went back must be available again (also where the pointer check is compiled out)
+    from checks import c03
+    k = 0
+    while k < max(6, n // 6):
+        sc = c03.gen_arena_faults(rng)
+        if ' static ' not in sc and ' virtual ' not in sc:
+            continue
+        k += 1
+        for c in cfgs:
+            cases.append(dict(exe=ex_arena[c], script=sc, replay_args=['arena'], tag=('arena', sc.split('\n')[0] + ' (run dry)', c)))
     for i in range(n // 2):
         sc = stackgen.gen_script(rng, faults=True)
         if rng.random() < 0.4:
@@ -155,6 +166,8 @@ def run(ctx):
             div += len(r['div'])
             ctx.tie_broken.append('correspondence: %s (%s cfg=%s)' % (r['div'][0], tgt, c))
         msgs, st = bracket_oracle(r['log'])
+        if kind == 'arena' and '(run dry)' in tgt:
+            msgs = msgs + c03.arena_oracle(r['log'])
         for k in tot:
             tot[k] += st[k]
         if r['rc'] != 0:
